@@ -265,16 +265,37 @@ def chain2(a0: int, a1: int) -> bool:
     if result == 'dropped':
         if sent != b'':
             return fail('dropped follow-up request was forwarded', sent=repr(sent[:60]))
-        return ok()
+    else:
+        try:
+            m = refhttp.read_message(sent, False)
+        except refhttp.Malformed as e:
+            return fail('forwarded follow-up request malformed', why=str(e), sent=repr(sent[:80]))
+        if m['start'][1] != b'/second':
+            return fail('follow-up request not forwarded', start=repr(m['start']))
+        fm = sorted(k.decode() for k, nme, v in m['headers'] if k.startswith(b'x-mark'))
+        if fm != sorted(marks):
+            return fail('forwarded follow-up request does not carry exactly the modifications of the chain', got=repr(fm), want=repr(sorted(marks)))
+    # a THIRD request on the kept connection, every plugin passing: the chain runs once, on that request, and it is forwarded
+    sent2 = len(envkit.pending(h.plugin.upstream))
+    BEH.clear()
+    del LOG[:]
+    cs.inq.append(b'GET http://o.example/third HTTP/1.1\r\nHost: o.example\r\n\r\n')
+    try:
+        td = run(h.handle_events([cs.fd], []))
+    except Exception as e:
+        return fail('exception left handle_events on the request after the follow-up', exc=repr(e))
+    if bool(td) or h.must_flush_before_shutdown:
+        return fail('connection closed on the request after a %s follow-up request' % result)
+    got = [x for x in LOG if x[0] == 'hcr']
+    if got != [('hcr', 0, ()), ('hcr', 1, ())]:
+        return fail('request after a %s follow-up: the chain did not run exactly once on it' % result, got=repr(got))
+    sent = envkit.pending(h.plugin.upstream)[sent2:]
     try:
         m = refhttp.read_message(sent, False)
     except refhttp.Malformed as e:
-        return fail('forwarded follow-up request malformed', why=str(e), sent=repr(sent[:80]))
-    if m['start'][1] != b'/second':
-        return fail('follow-up request not forwarded', start=repr(m['start']))
-    fm = sorted(k.decode() for k, nme, v in m['headers'] if k.startswith(b'x-mark'))
-    if fm != sorted(marks):
-        return fail('forwarded follow-up request does not carry exactly the modifications of the chain', got=repr(fm), want=repr(sorted(marks)))
+        return fail('request after a %s follow-up request not forwarded intact' % result, why=str(e), sent=repr(sent[:80]))
+    if m['start'][1] != b'/third' or m['remainder'] != b'':
+        return fail('request after a %s follow-up request: something else was forwarded' % result, sent=repr(sent[:80]))
     return ok()
 
 
